@@ -987,7 +987,11 @@ func c14Linearizable(w *core.W, j int) {
 			}
 		}(t)
 	}
-	wg.Wait()
+	if !within(c13Watch, wg.Wait) {
+		// an operation on the multiplexer that does not return is a request that is neither handled nor refused
+		w.Violation("C14/mux-operations-do-not-return", fmt.Sprintf("4 goroutines x 8 Handle / HandleRemove / ServeDNS calls on one ServeMux did not finish within %v", c13Watch), nil)
+		return
+	}
 	m := porcupine.Model{Init: func() any { return "-,-,-" }, Step: muxStep}
 	res := porcupine.CheckOperationsTimeout(m, hist, 20*time.Second)
 	w.Eval(1)
@@ -1012,6 +1016,84 @@ func c14Linearizable(w *core.W, j int) {
 
 // c14ReadCompletesAsShutdownBegins: a datagram whose read completes at the moment Shutdown begins has
 // been received: it is dealt with like any other (handler once and its reply, before Shutdown returns).
+// c14MuxStorm: many lookups against a multiplexer whose table is being changed all the time - six
+// goroutines route queries (hits and misses), two register and remove patterns. Every call returns, and
+// every query is routed to a handler registered at some time for a suffix of its name, or refused.
+func c14MuxStorm(w *core.W, j int) {
+	mux := dns.NewServeMux()
+	pats := []string{"a.storm.example.", "storm.example.", "b.a.storm.example.", "example."}
+	mkh := func(p string) dns.Handler {
+		return dns.HandlerFunc(func(rw dns.ResponseWriter, _ *dns.Msg) { rw.(*muxRW).msg = &dns.Msg{MsgHdr: dns.MsgHdr{Id: uint16(len(p))}} })
+	}
+	mux.Handle(pats[1], mkh(pats[1]))
+	lookups, changes := 6000, 1500
+	if w.Tier == "thorough" {
+		lookups, changes = 40000, 10000
+	}
+	var wrong atomic.Int32
+	var first atomic.Value
+	var wg sync.WaitGroup
+	for t := 0; t < 6; t++ {
+		wg.Add(1)
+		go func(t int) {
+			defer wg.Done()
+			r := w.Rng(j, t)
+			qn := []string{"x.b.a.storm.example.", "a.storm.example.", "y.storm.example.", "other.test.", "storm.example."}
+			for i := 0; i < lookups; i++ {
+				name := qn[r.IntN(len(qn))]
+				rw := &muxRW{}
+				req := new(dns.Msg)
+				req.SetQuestion(name, dns.TypeA)
+				mux.ServeDNS(rw, req)
+				if rw.msg == nil {
+					wrong.Add(1)
+					first.CompareAndSwap(nil, "no handler ran and nothing was written for "+name)
+					continue
+				}
+				if rw.msg.Response && rw.msg.Rcode == dns.RcodeRefused {
+					continue // nothing matched at that moment
+				}
+				// the handler that ran belongs to a pattern that is a suffix of the name
+				ok := false
+				for _, p := range pats {
+					if int(rw.msg.Id) == len(p) && dns.IsSubDomain(p, name) {
+						ok = true
+					}
+				}
+				if !ok {
+					wrong.Add(1)
+					first.CompareAndSwap(nil, fmt.Sprintf("%s was routed to the handler of a pattern of %d octets", name, rw.msg.Id))
+				}
+			}
+		}(t)
+	}
+	for t := 0; t < 2; t++ {
+		wg.Add(1)
+		go func(t int) {
+			defer wg.Done()
+			r := w.Rng(j, 10+t)
+			for i := 0; i < changes; i++ {
+				p := pats[r.IntN(len(pats))]
+				if r.IntN(2) == 0 {
+					mux.Handle(p, mkh(p))
+				} else {
+					mux.HandleRemove(p)
+				}
+			}
+		}(t)
+	}
+	w.Eval(1)
+	if !within(2*c13Watch, wg.Wait) {
+		w.Violation("C14/mux-operations-do-not-return", fmt.Sprintf("6 goroutines routing queries and 2 changing the table of one ServeMux did not finish within %v", 2*c13Watch), nil)
+		return
+	}
+	w.Count("mux_storm_lookups", 6*lookups)
+	if n := wrong.Load(); n > 0 {
+		w.Violation("C14/routing/under-concurrent-changes", fmt.Sprintf("%d of %d lookups made while the table was changing went wrong (%v)", n, 6*lookups, first.Load()), nil)
+	}
+	w.NontrivialStr("mux-storm", fmt.Sprint(j))
+}
+
 func c14ReadCompletesAsShutdownBegins(w *core.W, j int) {
 	s := newC14Srv(w, "udp", uint64(w.Seed)+uint64(j))
 	if s == nil {
@@ -1153,6 +1235,7 @@ func init() {
 		section{"transient-errors", tiered(16, 320), c14TransientErrors},
 		section{"routing", tiered(300, 10000), c14Routing},
 		section{"mux-linearizability", tiered(300, 10000), c14Linearizable},
+		section{"mux-storm", tiered(6, 40), c14MuxStorm},
 	)
 	core.Register(&core.Monitor{
 		ID: "C14", Level: "exploration", Plan: plan, Run: run, Race: true, Terminates: true, MaxParallel: 16, CaseTimeout: 75e9,
